@@ -83,6 +83,10 @@ theorem gnu_chain_start (c : Bool) (bv so : BitVec 32) :
     (if c = true then gnu32_chain_start bv so else gnu64_chain_start bv so) = bv - so := by cases c <;> rfl
 theorem gnu_chain_next (c : Bool) (ci : BitVec 32) :
     (if c = true then gnu32_chain_next ci else gnu64_chain_next ci) = ci + 1 := by cases c <;> rfl
+/-- `while ( true )` of the chain walk -/
+theorem gnu_forever_ite {α : Type} (c : Bool) (x y : α) :
+    (if (!(if c = true then gnu32_loop_forever else gnu64_loop_forever)) = true then x else y) = y := by
+  cases c <;> rfl
 theorem gnu_name_match (c : Bool) (ch hash : BitVec 32) (got eq : Bool) :
     (if c = true then gnu32_name_match_gate ch hash got eq else gnu64_name_match_gate ch hash got eq)
       = ((if c = true then gnu32_hash_match ch hash else gnu64_hash_match ch hash) && got && eq) := by cases c <;> rfl
@@ -105,6 +109,6 @@ macro "sym_tie" loc:(Lean.Parser.Tactic.location)? : tactic =>
       SymTie.gnu_hdr_off0, SymTie.gnu_hdr_off1, SymTie.gnu_hdr_off2, SymTie.gnu_hdr_off3,
       SymTie.gnu32_bloom_elem, SymTie.gnu64_bloom_elem, SymTie.gnu_bucket_elem, SymTie.gnu_chain_elem,
       SymTie.gnu_chain_elem_walk, SymTie.gnu32_bloom_pass, SymTie.gnu64_bloom_pass, SymTie.gnu_bucket_ok,
-      SymTie.gnu_chain_start, SymTie.gnu_chain_next, SymTie.gnu_name_match] $[$loc]?)
+      SymTie.gnu_chain_start, SymTie.gnu_chain_next, SymTie.gnu_name_match, SymTie.gnu_forever_ite] $[$loc]?)
 
 end ElfioVerif
